@@ -141,6 +141,19 @@ func c14Case(o *Out, kind string, which int, viaYaml bool, wl, bl []string, prob
 		req, resp := mk()
 		req0, resp0 := mk()
 		ctx := context.WithValue(context.Background(), c14ctxKey{}, 1)
+		// the measured request is not the hook's first: it has decided a few dozen others before (other clients / torrents,
+		// approved and refused alike) - the decision is about THIS request's key alone
+		if len(probe) > 2 && probe[1]%4 == 0 {
+			for i := 0; i < 40; i++ {
+				wid := make([]byte, 20)
+				copy(wid, probe)
+				wid[i%20] ^= byte(1 + i)
+				wreq := &bittorrent.AnnounceRequest{InfoHash: bittorrent.InfoHashFromBytes(wid), Peer: bittorrent.Peer{ID: bittorrent.PeerIDFromBytes(wid), Port: 1,
+					IP: bittorrent.IP{IP: net.IP{10, 0, 0, 2}, AddressFamily: bittorrent.IPv4}}}
+				_, _ = h.HandleAnnounce(context.Background(), wreq, &bittorrent.AnnounceResponse{})
+				_, _ = h.HandleScrape(context.Background(), &bittorrent.ScrapeRequest{InfoHashes: []bittorrent.InfoHash{wreq.InfoHash}}, &bittorrent.ScrapeResponse{})
+			}
+		}
 		nctx, aerr := h.HandleAnnounce(ctx, req, resp)
 		switch {
 		case aerr == nil:
